@@ -90,7 +90,7 @@ impl Oracle for C11 {
         }
         // state now and at historical heads
         let t1 = observe_replica(w, r, "C11", "same_state")?;
-        let t2 = observe(&loaded, None).map_err(|e| fail(w, "same_state", &format!("read-inconsistency:{}", sig_of_detail(&e.0)), e.0.clone()))?;
+        let t2 = observe(&loaded, None).map_err(|e| fail(w, "same_state", &read_sig(&e.0), e.0.clone()))?;
         if let Some(d) = tree_diff(&t1, &t2) {
             return Err(fail(w, "same_state", &format!("state-differs:{}", sig_of_detail(&d)), format!("original vs loaded: {d}")));
         }
